@@ -61,6 +61,10 @@ pub fn set_quiet(q: bool) {
     QUIET.with(|x| *x.borrow_mut() = q);
 }
 
+pub fn take_panic_pub() -> (String, String) {
+    take_panic()
+}
+
 fn take_panic() -> (String, String) {
     LAST_PANIC
         .with(|p| p.borrow_mut().take())
@@ -94,6 +98,14 @@ impl RuntimeInstant for VInstant {
 #[derive(Debug, Clone)]
 pub struct VerifRuntime {
     dispatch: Arc<FileSystemDispatch>,
+}
+
+impl VerifRuntime {
+    pub fn for_fs(fs: VerifFs) -> VerifRuntime {
+        let mut dispatch = FileSystemDispatch::empty();
+        dispatch.register_filesystem(fs);
+        VerifRuntime { dispatch: Arc::new(dispatch) }
+    }
 }
 
 impl SystemRuntime for VerifRuntime {
